@@ -1005,6 +1005,13 @@ pub fn run(prop: Prop, args: &Args, seed: u64, tier: &str, report: &Report) -> S
                 max_depth = 300 + rng.below(400) as usize;
                 n_ops = max_depth + 150;
             }
+            if w % 240 == 31 {
+                // now and then beyond a thousand plies (any fixed capacity someone may think no game reaches), with
+                // makes and take-backs mixed around the peak
+                max_depth = 1030 + rng.below(300) as usize;
+                n_ops = max_depth + 400;
+                l.feat("dives_beyond_1000_plies");
+            }
             if prop == Prop::C03 && w % 4 == 0 {
                 transposition_pairs(&sh, &root, &mut rng, &mut l);
             }
